@@ -88,7 +88,11 @@ class BodyGen:
         if k == "assign":
             return [f"{indent}flag = not flag"]
         if k == "if":
-            return [f"{indent}if flag:", *self.block(d, i2, "if")]
+            # conditions the type checker decides statically for the analysing host (TYPE_CHECKING, platform): the
+            # guarded returns are produced at run time / on other hosts and belong to the function's results
+            cond = self.rng.choice(["flag", "flag", "n > 3", "not TYPE_CHECKING", 'sys.platform == "some-other-os"', "not flag and n"])
+            ctx2 = "if-static" if ("TYPE_CHECKING" in cond or "platform" in cond) else "if"
+            return [f"{indent}if {cond}:", *self.block(d, i2, ctx2)]
         if k == "ifelse":
             return [f"{indent}if flag:", *self.block(d, i2, "if"), f"{indent}else:", *self.block(d, i2, "else")]
         if k == "elif":
@@ -127,7 +131,7 @@ def tuple_permutation_clash(returns: list[list[str]]) -> bool:
 
 
 def build_inferred_module(rng, gated: set, idx: int, n: int):
-    lines = ["from __future__ import annotations\n\n\n"]
+    lines = ["from __future__ import annotations\n\nimport sys\nfrom typing import TYPE_CHECKING\n\n\n"]
     gt = {}
     j = 0
     while j < n:
